@@ -58,12 +58,14 @@ sys.path[:0] = [sys.argv[1], sys.argv[2]]
 from harness import run, sweeps
 import random
 out = {}
-for fam, seed in json.loads(sys.argv[3]):
-    deck, opts = sweeps.FAMILIES[fam](seed)
-    text = deck.text(random.Random(f'fmt{seed}'))
-    t4, so, exc = run.convert(text, lattice=opts.get('lattice', ()))
-    body = None if t4 is None else '\n'.join(l for l in t4.split('\n') if not l.startswith('// t4_geom_convert command line'))
-    out[f'{fam}/{seed}'] = [None if body is None else hashlib.sha256(body.encode()).hexdigest(), repr(exc)[:80]]
+order = json.loads(sys.argv[3])
+for rnd in (1, 2):          # every deck is converted a second time after all the others, in the same process
+    for fam, seed in order:
+        deck, opts = sweeps.FAMILIES[fam](seed)
+        text = deck.text(random.Random(f'fmt{seed}'))
+        t4, so, exc = run.convert(text, lattice=opts.get('lattice', ()))
+        body = None if t4 is None else '\n'.join(l for l in t4.split('\n') if not l.startswith('// t4_geom_convert command line'))
+        out[f'{fam}/{seed}' + ('' if rnd == 1 else '#again')] = [None if body is None else hashlib.sha256(body.encode()).hexdigest(), repr(exc)[:80]]
 print(json.dumps(out))
 '''
 
@@ -75,8 +77,7 @@ def hashseed_runs(tier, seed):
     verif = os.path.dirname(os.path.dirname(os.path.abspath(__file__)))
     repo = os.environ.get('T4GC_REPO', '/repo')
     n = 6 if tier == 'quick' else 40
-    decks = [(fam, seed * 100003 + i) for i in range(n) for fam in ('level0', 'fill', 'lattice')]
-    decks.append(decks[0])          # the first deck again, after all the others, in the same process
+    decks = [(fam, seed * 100003 + i) for i in range(n) for fam in ('level0', 'fill', 'lattice', 'hexlattice')]
     seeds = ['0', '1', '2', '12345'] if tier == 'quick' else ['0', '1', '2', '3', '4', '12345', '999', 'random']
     results = {}
     procs = []
@@ -97,14 +98,14 @@ def hashseed_runs(tier, seed):
     for hs, r in results.items():
         for k, (h, exc) in r.items():
             n_cmp += 1
-            if ref.get(k, [None])[0] != h:
+            if ref.get(k.split('#')[0], [None])[0] != h:
                 fails.append({'label': 'output-differs-between-processes-or-run-orders', 'case': k,
-                              'detail': f'deck {k}: PYTHONHASHSEED={seeds[0]} -> {ref.get(k)}, PYTHONHASHSEED={hs} -> {[h, exc]}'})
+                              'detail': f'deck {k}: PYTHONHASHSEED={seeds[0]} -> {ref.get(k.split('#')[0])}, PYTHONHASHSEED={hs} -> {[h, exc]}'})
                 break
     return {'name': 'hashseed-and-sequence-runs', 'kind': 'bounded replay (fresh processes, different hash seeds, '
             'different run orders, repeated conversion in one process)', 'evaluations': n_cmp,
-            'distinct_nontrivial': len(decks) - 1, 'rule': f'{len(decks) - 1} generated decks x {len(seeds)} processes; '
-            'the last conversion of each process repeats the first deck', 'failures': fails}
+            'distinct_nontrivial': len(decks), 'rule': f'{len(decks)} generated decks x {len(seeds)} processes; '
+            'each process converts every deck twice (second pass after all the others)', 'failures': fails}
 
 
 STATIC = {'C18': [frame_obligations]}
